@@ -247,7 +247,7 @@ def _md_flags(draw, allow_md=True, prio=True, delete=True, density=3):
 def special_leaf(draw, ctr, files=('inc_a.yaml', 'inc_b.yaml'), allow_structural=True):
     """A dynamic / structural node of a random kind (AST)."""
     kinds = ['xref', 'ref', 'eval', 'evalml', 'fstr', 'fstr_implicit', 'import', 'required', 'null', 'path', 'pathref', 'pathabs',
-             'call', 'bind', 'callsimple']
+             'pathmd', 'call', 'bind', 'callsimple']
     if allow_structural:
         kinds += ['clear', 'prev', 'include', 'includelist', 'rec', 'append', 'extend']
     k = draw(st.sampled_from(kinds))
@@ -270,7 +270,6 @@ def special_leaf(draw, ctr, files=('inc_a.yaml', 'inc_b.yaml'), allow_structural
         fl = {}
     elif k == 'import':
         node = tdoc.raw(draw(st.sampled_from(['os.path', 'math.pi', 'vfrec.ident'])), '!import')
-        fl = {}
     elif k == 'required':
         node = {'t': 'empty', 'tag': '!required'}
     elif k == 'null':
@@ -288,10 +287,12 @@ def special_leaf(draw, ctr, files=('inc_a.yaml', 'inc_b.yaml'), allow_structural
         fl = {}
     elif k == 'rec':
         node = tdoc.raw(draw(st.sampled_from(files)), '!rec')
-        fl = {}
     elif k == 'path':
         node = tdoc.sq([tdoc.sc('a'), tdoc.sc('b')], flow=True, tag='!path')
         fl = {}
+    elif k == 'pathmd':
+        # no reference point, but flags / metadata: '!path:{{..}}' (the first suffix of this tag is the reference point)
+        node = tdoc.sq([tdoc.sc('q')], flow=True, tag='!path:')
     elif k == 'pathref':
         node = tdoc.sq([tdoc.sc('x')], flow=True, tag='!path:' + draw(st.sampled_from(['cwd', 'file', 'parent', 'parent(1)'])))
     elif k == 'pathabs':
@@ -347,13 +348,18 @@ def full_value(draw, ctr, depth=0, allow_structural=True, scalars=None):
         return node
     if c <= 6:
         node = draw(special_leaf(ctr, allow_structural=allow_structural))
-        if len(ctr) > 2 and node['t'] in ('map', 'seq') and str(node.get('tag', '')).startswith(('!call', '!bind', '!path')):
-            _maybe_anchor(draw, node, ctr)      # function / path nodes re-used through an alias (aliases='all')
+        if len(ctr) > 2:
+            _maybe_anchor(draw, node, ctr)      # dynamic / structural nodes of every kind re-used through an alias (aliases='all')
         return node
-    node = tdoc.sc(draw(scalars if scalars is not None else SIMPLE_SCALARS), q=draw(QUOTES))
-    if node['v'] is None and draw(st.booleans()):
+    if draw(st.integers(0, 24)) == 0:
+        node = tdoc.ts(draw(st.sampled_from(tdoc.TIMESTAMPS)))      # yaml timestamp: a date / datetime scalar
+    else:
+        node = tdoc.sc(draw(scalars if scalars is not None else SIMPLE_SCALARS), q=draw(QUOTES))
+    if node['t'] == 'sc' and node['v'] is None and draw(st.booleans()):
         node = {'t': 'empty'}
     node.update(_md_flags(draw))
+    if len(ctr) > 2 and (node['t'] in ('sc', 'raw') or any(k in node for k in tdoc.FLAG_KEYS)):
+        _maybe_anchor(draw, node, ctr)          # scalars, tagged or not
     return node
 
 
